@@ -20,7 +20,7 @@ def by_flow(out):
 
 def arrangement(rng, table, hist, k):
     """k connections whose endpoints are related in one of the ways the property lists"""
-    kind = rng.choice(["distinct-hosts", "same-hosts-different-client-ports", "same-client-port-different-servers", "mixed"])
+    kind = rng.choice(["distinct-hosts", "same-hosts-different-client-ports", "same-client-port-different-servers", "mixed", "crosswise"])
     hist["arrangement=" + kind] += 1
     conns = []
     base_v6 = bool(rng.randrange(2))
@@ -31,6 +31,12 @@ def arrangement(rng, table, hist, k):
         c, s = tlsgen.endpoints(rng, v6, server_port=443, idx=j + 2)
         if kind == "same-hosts-different-client-ports":
             c, s = capgen.Endpoint(c0.mac, c0.ip, c0.port + 1 + j), capgen.Endpoint(s0.mac, s0.ip, s0.port)
+        elif kind == "crosswise":
+            # two hosts, each a client of the other, same client port and same server port: X:p -> Y:s and Y:p -> X:s
+            c, s = (capgen.Endpoint(c0.mac, c0.ip, c0.port), capgen.Endpoint(s0.mac, s0.ip, s0.port)) if j % 2 == 0 else \
+                   (capgen.Endpoint(s0.mac, s0.ip, c0.port + (j // 2)), capgen.Endpoint(c0.mac, c0.ip, s0.port))
+            if j >= 2 and j % 2 == 0:
+                c = capgen.Endpoint(c0.mac, c0.ip, c0.port + (j // 2))
         elif kind == "same-client-port-different-servers":
             c = capgen.Endpoint(c0.mac, c0.ip, c0.port)
             if len(s.ip) != len(c.ip):
@@ -88,7 +94,7 @@ def main():
                     if cn.kind == "noise":
                         continue
                     solo_cap = capgen.to_pcapng(cn.packets)
-                    st1, out1 = impl.run(solo_cap, case.keylog, args)
+                    st1, out1 = impl.run(solo_cap, cn.s.keylog, args)       # alone: its own packets and its own key-log lines
                     if st1 != "ok":
                         why = "solo run ended with " + st1
                         break
